@@ -605,6 +605,16 @@ class Prov:
                 out |= self._returns(callee, selfcls, depth, ch)
             elif isinstance(callee, tuple) and callee and callee[0] == "gen":
                 out.add(("DOC", ch))
+        if not cal and isinstance(e.func, ast.Name):
+            # a nested helper of the calling function (closure / local generator): the values it returns or yields
+            nested = [n for n in ast.walk(fc.fn.node) if isinstance(n, (ast.FunctionDef, ast.AsyncFunctionDef)) and n is not fc.fn.node
+                      and n.name == e.func.id]
+            if len(nested) == 1:
+                vals = [x.value for x in ast.walk(nested[0]) if isinstance(x, (ast.Return, ast.Yield)) and x.value is not None]
+                for v_ in vals:
+                    out |= self.origin(v_, fc, depth + 1, ch + ("-> %s()" % e.func.id,))
+                if vals:
+                    return out
         if not cal:
             ft = T.expr(e.func, fc)
             if any(a[0] == "ext" for a in ft):
